@@ -203,10 +203,11 @@ pub fn tiny_letters() -> Vec<Letter> {
     ]
 }
 
-/// LONG: complete buildings with 13, 24 and 8760 (hourly) steps, every step regime occurring many times
+/// LONG: complete buildings with 13, 24, 31, 52, 365 and 8760 (hourly) steps, every step regime occurring many times
 pub fn long_bases() -> Vec<(String, String)> {
     let mut out = vec![];
-    for t in [13usize, 24, 8760] {
+    // 13 and 31 are prime, 52 weeks and 365 days are not multiples of 12 or 24, 24 and 8760 are
+    for t in [13usize, 24, 31, 52, 365, 8760] {
         let series = |f: &dyn Fn(usize) -> f64| -> String { (0..t).map(|i| format!("{}", (f(i) * 100.0).round() / 100.0)).collect::<Vec<_>>().join(", ") };
         let used = series(&|i| [4.0, 1.0, 0.0, 2.5, 8.0, 0.5, 3.0][i % 7]);
         let nepb = series(&|i| [0.0, 2.0, 1.0][i % 3]);
@@ -223,7 +224,7 @@ pub fn long_bases() -> Vec<(String, String)> {
         let l_amb = format!("1, CONSUMO, ACS, EAMBIENTE, {amb}\n1, PRODUCCION, EAMBIENTE, {ambp}\n");
         out.push((format!("T={t} use+PV+CHP"), format!("{l_use}{l_acs}{l_pv}{l_chp}")));
         out.push((format!("T={t} use+nEPB+PV+CHP+ambient"), format!("{l_use}{l_nepb}{l_pv}{l_chp}{l_amb}")));
-        if t < 1000 {
+        if t < 100 {
             out.push((format!("T={t} use+PV"), format!("{l_use}{l_pv}")));
             out.push((format!("T={t} CHP only"), format!("{l_use}{l_chp}")));
         }
